@@ -520,6 +520,20 @@ def r_bound(E):
                     and n.attr not in ("update_nb_of_instances",):
                 branches.append(n.attr)
     if not branches:
+        # dispatch by name: getattr(self, <entry of a class-level table of method names>)() — the branches are the
+        # methods of the class whose names have the shape of the table's entries
+        import re as _re_b
+        from ..interp import V as _V_b
+        for n in ast.walk(disp):
+            if isinstance(n, ast.Call) and isinstance(n.func, ast.Name) and n.func.id == "getattr" and len(n.args) == 2 \
+                    and norm(n.args[0]) == "self":
+                pat = E.I._name_pattern(n.args[1], _V_b("obj", {"ServerBase"}, True), {})
+                if pat:
+                    for f_ in pm.own_methods("ServerBase"):
+                        if _re_b.fullmatch(pat, f_.name) and not is_property(f_) and f_.name != "update_nb_of_instances" \
+                                and f_.name not in branches:
+                            branches.append(f_.name)
+    if not branches:
         branches = ["update_nb_of_instances"]
     if len(branches) < 3 and branches != ["update_nb_of_instances"]:
         res.undecided.append(f"ServerBase.update_nb_of_instances dispatches to {branches}: three sizing branches expected")
